@@ -190,6 +190,33 @@ fn m_open_accepted() {
     core::mem::forget((fut, td));
 }
 
+/// the first half of an open: exactly one Connect with (fresh id, own window, port, host byte-exact),
+/// a Requested slot under that id, and the call waits.  (The second half -- the Acknowledge arm
+/// establishing the slot and delivering a stream with that id and credit == the peer's window -- is
+/// the contract t_ack_requested; the two halves in one harness, m_open_accepted, exceed 16 GB.)
+#[cfg_attr(kani, kani::proof)]
+#[cfg_attr(kani, kani::stub(catch_unwind, call_through))]
+#[cfg_attr(kani, kani::unwind(7))]
+#[cfg_attr(verif_replay, test)]
+fn m_open_sends_connect() {
+    let (mux, mut td) = mux_world(Options::new().rwnd(3).default_rwnd_threshold(1), [0, B, A, C]);
+    let (btx, brx) = oneshot::channel::<bool>();
+    td.task.flows.write().insert(B, FlowSlot::BindRequested(btx)); // id B is in use
+    let mut fut = Leaky::new(mux.new_stream_channel(b"hi", PORT));
+    let p1 = fut.poll();
+    assert!(matches!(p1, Poll::Pending), "C07.open.waits: the open call waits for the peer's answer");
+    core::mem::forget(p1);
+    let (seen, b) = next_out(&mut td.tx_msg_rx);
+    assert!(seen.op == 0 && seen.id == A, "C07.open.fresh_id: the Connect proposes a non-zero id that is not in use (the generator offered 0 and an id in use first)");
+    assert!(seen.arg == 3, "C03.connect.window: the Connect advertises exactly the own receive window");
+    let b = b.unwrap();
+    assert!(b.len() == 13 && be16(&b, 9) == PORT && b[11] == b'h' && b[12] == b'i', "C07.open.target: the Connect carries port and host byte-exact");
+    core::mem::forget(b);
+    assert!(out_empty(&mut td.tx_msg_rx), "C07.open.single: one Connect per attempt");
+    assert!(matches!(td.task.flows.read().get(&A), Some(FlowSlot::Requested(_))) && tlen(&td) == 2, "C07.open.slot: a Requested slot under the proposed id, the other flow untouched");
+    core::mem::forget((fut, td, brx));
+}
+
 pub(crate) fn be16(b: &[u8], i: usize) -> u16 {
     (b[i] as u16) * 256 + b[i + 1] as u16
 }
